@@ -324,6 +324,47 @@ def _one_return(fn):
     return None
 
 
+CURRENT_ORDER = ('self._order', 'self', 'list(self._order)', 'list(self)', 'self.keys()', 'iter(self._order)', 'iter(self)')
+INSERTION_ORDER = ('self._values', 'self._values.keys()', 'list(self._values)', 'list(self._values.keys())', 'iter(self._values)')
+
+
+def _reorder_form(ctx, fn, name):
+    """sort/reverse written as a rebuild of _order: `self._order = sorted(<source>, ...)` / `list(reversed(<source>))`.
+    The source must be the CURRENT order (a stable sort keeps ties in current order); the value dict iterates in
+    insertion order, which differs after any positioned insert, relocation, reverse or earlier sort.
+    Returns the canonical in-place form, False when a violation was reported, None when the shape is unknown."""
+    body = [st for st in body_wo_doc(fn) if not (isinstance(st, ast.Return) and (st.value is None or norm(st.value) == 'None'))]
+    if len(body) != 1 or not isinstance(body[0], ast.Assign) or len(body[0].targets) != 1:
+        return None
+    tgt = norm(body[0].targets[0])
+    if tgt not in ('self._order', 'self._order[:]'):
+        return None
+    v = body[0].value
+    if isinstance(v, ast.Call) and norm(v.func) == 'list' and len(v.args) == 1 and not v.keywords:
+        v = v.args[0]
+    if not (isinstance(v, ast.Call) and isinstance(v.func, ast.Name) and v.args):
+        return None
+    src = norm(v.args[0])
+    rest = ', '.join([norm(x) for x in v.args[1:]] + [norm(k) if k.arg else '**' + norm(k.value) for k in v.keywords])
+    fname = v.func.id
+    if (name, fname) not in (('sort', 'sorted'), ('reverse', 'reversed')):
+        return None
+    if src in CURRENT_ORDER:
+        if name == 'sort':
+            return 'self._order.sort(%s)' % rest
+        return 'self._order.reverse(%s)' % rest
+    if src in INSERTION_ORDER:
+        ctx.violation('C16.D5', '%s::SortableDict.%s' % (F, name), norm(body[0]),
+                      "m = SortableDict(); m['b'] = 1; m['B'] = 2; m.add_item('a', 0, index=1); m.reverse(); "
+                      "m.%s: the result is computed from the value dict's insertion order [b, B, a], not from the current "
+                      "order [a, B, b]%s" % ('sort(key=str.lower) gives [a, b, B], the reference (stable sort of the current '
+                                              'order) gives [a, B, b]' if name == 'sort' else 'reverse()', ''),
+                      'SortableDict.%s rebuilds _order from `%s` (insertion order) instead of the current order' % (name, src),
+                      file=F, line=body[0].lineno, engine='E9')
+        return False
+    return None
+
+
 def _delegations(ctx, m, meths):
     want = {
         '__getitem__': (['self._values[key]'], 'm[k] returns another value'),
@@ -350,6 +391,10 @@ def _delegations(ctx, m, meths):
             continue
         a = [x.arg for x in fn.args.args]
         got = _one_return(fn)
+        if got is None and name in ('sort', 'reverse'):
+            got = _reorder_form(ctx, fn, name)
+            if got is False:
+                continue
         if got is None:
             ctx.error('C16.D5', 'SortableDict.%s is no longer a one-expression method' % name)
             continue
